@@ -267,9 +267,26 @@ def run(ctx, idx):
             while top_ is not None and getattr(top_, "parent", None) is not None:
                 top_ = top_.parent
             own = top_ is A_.run and fi_ is A_.run
+            # the line may travel with the error: a value read off the caught object itself (`ex.failed_command.lineno`) names
+            # whatever the raising side recorded, not the command at hand
+            val_ = None
+            for st_ in ast.walk(n_):
+                if isinstance(st_, ast.Assign) and any(t_ is tgt for t_ in st_.targets):
+                    val_ = st_.value
+            if isinstance(tgt, ast.Call):
+                val_ = tgt.args[2]
+            root_ = val_
+            while isinstance(root_, (ast.Attribute, ast.Subscript)):
+                root_ = root_.value
+            if isinstance(root_, ast.Call) and isinstance(root_.func, ast.Name) and root_.func.id == "getattr" and root_.args:
+                root_ = root_.args[0]
+                while isinstance(root_, (ast.Attribute, ast.Subscript)):
+                    root_ = root_.value
+            if isinstance(root_, ast.Name) and root_.id == n_.name and not own:
+                own = True
             con_ = "%s::line-patched-onto-caught-error" % K.where(mod_, fi_)
             ctx.ob("C11.h", con_, mod_.rel, tgt.lineno, own,
-                   "Command.run fills in the line of the command whose evaluation failed" if own else
+                   "the line comes from the failing command itself (Command.run's own line, or a record carried by the error)" if own else
                    "`%s` stores a line on an error caught in %s: the error may come from any command evaluated underneath (a dependency pulled through .result), so it gets the line of a command that did not fail and the command-line tool marks that line" % (K.src(tgt)[:60], fi_.qualname if fi_ is not None else "module code"))
     ctx.floor("C11.h", "exception handlers examined", n_handlers, 8)
     del _IDX[:]
@@ -309,13 +326,26 @@ def run(ctx, idx):
         if isinstance(lexarg, ast.Attribute) and isinstance(lexarg.value, ast.Call) and "Lexer" in K.src(lexarg.value.func):
             fresh = True
         ok = fresh or cfg.must_pass_through(cfg.entry, c, set(resets)) and bool(resets)
+        if not ok and resets:
+            # the invariant form: the counter is put back to 1 on every way out of parse() after the call (normal and exceptional -
+            # a rejected text must not leave its line count behind), the lexer is built by __init__ (a new PLY lexer starts at 1),
+            # and nothing outside the token rules moves the counter
+            after = {n for n in resets if n in cfg.reachable(c)}
+            live = cfg.reachable(c)
+            both = all(ex not in live or cfg.must_pass_through(c, ex, after) for ex in (cfg.exit, cfg.raise_exit))
+            init = L.parser_cls.methods.get("__init__")
+            built = init is not None and any(isinstance(n_, ast.Assign) and any(isinstance(t_, ast.Attribute) and t_.attr == "lexer" for t_ in n_.targets) and isinstance(n_.value, (ast.Call, ast.Attribute)) for n_ in own_nodes(init.node))
+            others = [1 for m_ in L.parser_cls.methods.values() if m_ is not fi and m_ is not init for n_ in own_nodes(m_.node)
+                      if isinstance(n_, ast.Attribute) and isinstance(n_.ctx, ast.Store) and n_.attr == "lineno" and "lexer" in K.src(n_.value)]
+            if after and both and built and not others:
+                ok = True
         if not ok:
             computed = cfg.find("store", lambda n: n.meta.get("attr") == "lineno" and n.meta.get("value") is not None and not isinstance(n.meta.get("value"), ast.Constant))
             if computed and cfg.must_pass_through(cfg.entry, c, set(computed)):
                 raise AnalysisError("C11.a: the lexer's line counter is set to a computed value (`%s`) before parsing: cannot decide whether it is the line of the first character handed to the lexer" % K.src(computed[0].meta["value"])[:80])
         clone = lexarg is not None and ".clone(" in K.src(lexarg)
         ctx.ob("C11.a", con + "::counter-reset", K.rel(fi), c.line, ok and not clone,
-               "line counter reset to 1 (or a fresh lexer) on every path to the parse call" if ok and not clone else
+               "line counter reset to 1 (or a fresh lexer) on every path to the parse call, or put back to 1 on every way out of every parse" if ok and not clone else
                "the lexer's line counter is not reset before parsing: a second parse() on the same Parser continues counting where the previous text ended, so every line is offset")
     # ------------------------------------------------------------------ b
     dfas = {r.name: RL.dfa(r.pattern) for r in L.rules}
